@@ -368,3 +368,308 @@ pub(crate) fn weak_redowngrade_reuses_record() {
     kani::assert(w2.upgrade().map(|c| { let same = raw_of(&c) == x; core::mem::forget(c); same }) == Some(true), "Weak::upgrade::post::same_allocation");
     core::mem::forget((h, w2));
 }
+
+// ------------------------------------------------------------------------------------------------
+// Cc::try_unwrap (C13) — written here because the Weak / side-record clauses need this module's view
+// ------------------------------------------------------------------------------------------------
+/// Ok branch.  Control (with/without side record, buffered or not, finalized or not) is enumerated
+/// concretely inside the harness — a symbolic choice here makes try_unwrap's internal `Result<Option<T>>`
+/// discriminant symbolic and CBMC then runs T's drop glue on arbitrary bytes; the stale tracing counter
+/// and the weak count stay symbolic.
+fn try_unwrap_ok_case(has_md: bool, in_pc: bool, fin: bool, kk: u16) {
+    let h = mk_node(0);
+    let y = mk_node(1);
+    let (x, py) = (raw_of(&h), raw_of(&y));
+    let mut k: u16 = 0;
+    let mut m: Option<M> = None;
+    if has_md {
+        let mm = h.inner().get_or_init_metadata();
+        md::normalise_record_ptr(unsafe { REG[0].unwrap() }, mm);
+        k = kk; // >= 1 (k == 0: record freed, see cc_try_unwrap_frees_unreferenced_record); concrete: drop_metadata branches on it
+        md::set_wword(mm, 0x8000 | k);
+        m = Some(mm);
+    }
+    // y is buffered next to x
+    crate::cc::add_to_list(py);
+    if in_pc {
+        crate::cc::add_to_list(x);
+    }
+    let stale: u16 = kani::any();
+    kani::assume(stale < 0x3fff);
+    let t0 = if in_pc { 0x4000 } else { stale };
+    let c0 = (words_of(x).1 & 0x8000) | if fin { 0x4000 } else { 0 } | 1;
+    set_words_of(x, t0, c0);
+    let wy = words_of(py);
+    let size0 = pc_view().1;
+    let sn0 = state(|s| sp::snap(s));
+    let w = weak_from_parts(m, unsafe { REG[0].unwrap() });
+    let n0 = ccp::cb_counts();
+    let r = h.try_unwrap();
+    kani::assert(r.is_ok(), "Cc::try_unwrap::post::ok_when_unique_and_idle");
+    match r {
+        Ok(v) => {
+            kani::assert(v.id == 0 && v.intact(), "Cc::try_unwrap::post::value_moved_out_unchanged");
+            core::mem::forget(v);
+        }
+        Err(c) => core::mem::forget(c),
+    }
+    kani::assert(ccp::cb_counts() == n0, "Cc::try_unwrap::post::no_finalizer_no_destructor_no_trace");
+    let sn1 = state(|s| sp::snap(s));
+    kani::assert(sn1.bytes == sn0.bytes - NODE_BOX, "Cc::try_unwrap::post::allocated_bytes_minus_box_size");
+    kani::assert(sp::Snap { bytes: sn0.bytes, ..sn1 } == sn0, "Cc::try_unwrap::frame::collector_state");
+    let (sq, size1) = pc_view();
+    kani::assert(sq.wf && sq.len == size1 && !lp::contains(&sq, x) && lp::contains(&sq, py), "Cc::try_unwrap::post::leaves_the_buffer");
+    kani::assert(size1 == size0 - in_pc as usize, "Cc::try_unwrap::post::buffered_count_minus_one_iff_was_buffered");
+    kani::assert(words_of(py) == wy, "Cc::try_unwrap::frame::other_objects");
+    if has_md {
+        kani::assert(md::wword(m.unwrap()) == k, "Cc::try_unwrap::post::record_handed_over_inaccessible_count_kept");
+        kani::assert(w.strong_count() == 0 && w.upgrade().is_none(), "Cc::try_unwrap::post::weak_stops_upgrading");
+        kani::assert(w.weak_count() == k as u32, "Weak::weak_count::post::reads_record_count");
+    }
+    // leave the buffer empty for the next case
+    crate::cc::remove_from_list(py);
+    core::mem::forget((y, w));
+}
+//@ C13 C09 C11 C03 | complete | deciding | feat=full,finweak | fn=Cc::try_unwrap,remove_from_list,CcBox::layout,CcBox::drop_metadata,cc_dealloc | timeout=900
+#[kani::proof]
+#[kani::unwind(9)]
+pub(crate) fn cc_try_unwrap_ok_contract() {
+    try_unwrap_ok_case(false, false, false, 0);
+    try_unwrap_ok_case(false, true, true, 0);
+    try_unwrap_ok_case(true, false, true, 1);
+    try_unwrap_ok_case(true, true, false, 32767);
+}
+//@ C13 C09 C11 C03 | complete | deciding | thorough | feat=full,finweak | fn=Cc::try_unwrap | timeout=900
+#[kani::proof]
+#[kani::unwind(9)]
+pub(crate) fn cc_try_unwrap_ok_contract_other_half() {
+    try_unwrap_ok_case(false, false, true, 0);
+    try_unwrap_ok_case(false, true, false, 0);
+    try_unwrap_ok_case(true, false, false, 32767);
+    try_unwrap_ok_case(true, true, true, 2);
+}
+
+/// ... the box is really released (CBMC must flag the read) and with the creation layout (CBMC's
+/// dealloc-size check inside the call above / here).
+//@ C13 C03 | complete | deciding | feat=full | fn=Cc::try_unwrap | mustfail=expect_freed | timeout=600
+#[kani::proof]
+#[kani::unwind(9)]
+pub(crate) fn cc_try_unwrap_releases_box() {
+    let h = mk_node(0);
+    let x = raw_of(&h);
+    let with_weak: bool = kani::any();
+    let w = if with_weak { Some(h.downgrade()) } else { None };
+    let r = h.try_unwrap();
+    match r {
+        Ok(v) => core::mem::forget(v),
+        Err(c) => core::mem::forget(c),
+    }
+    core::mem::forget(w);
+    let _ = crate::utils::verif_proofs::expect_freed(x.as_ptr() as *const u8);
+}
+
+/// ... and a side record no Weak refers to any more is released too, exactly here.
+//@ C13 C09 C03 | complete | deciding | feat=full | fn=Cc::try_unwrap,CcBox::drop_metadata | mustfail=expect_freed | timeout=600
+#[kani::proof]
+#[kani::unwind(9)]
+pub(crate) fn cc_try_unwrap_frees_unreferenced_record() {
+    let h = mk_node(0);
+    let w = h.downgrade();
+    let m = w.metadata.unwrap();
+    drop(w); // weak count back to 0, record stays with the box
+    let in_pc: bool = kani::any();
+    if in_pc {
+        crate::cc::add_to_list(raw_of(&h));
+    }
+    let r = h.try_unwrap();
+    kani::assert(r.is_ok(), "Cc::try_unwrap::post::ok_when_unique_and_idle");
+    match r {
+        Ok(v) => core::mem::forget(v),
+        Err(c) => core::mem::forget(c),
+    }
+    kani::assert(state(|s| sp::snap(s)).bytes == 0, "Cc::try_unwrap::post::allocated_bytes_minus_box_size");
+    let _ = crate::utils::verif_proofs::expect_freed(m.as_ptr() as *const u8);
+}
+
+/// Err branch: more than one pointer, or any collector flag set: the very same pointer comes back and
+/// counts, buffering, finalization state, side record and collector state are unchanged.
+/// (count class and flag triple enumerated concretely, see try_unwrap_ok_case.)
+fn try_unwrap_err_case(cnt: u16, fc: bool, ff: bool, fd: bool, has_md: bool, in_pc: bool) {
+    let h = mk_node(0);
+    let x = raw_of(&h);
+    let mut mm: Option<M> = None;
+    let ww: u16 = kani::any::<u16>() | 0x8000;
+    if has_md {
+        let m = h.inner().get_or_init_metadata();
+        md::normalise_record_ptr(unsafe { REG[0].unwrap() }, m);
+        md::set_wword(m, ww);
+        mm = Some(m);
+    }
+    if in_pc {
+        crate::cc::add_to_list(x);
+    }
+    let stale: u16 = kani::any();
+    kani::assume(stale < 0x3fff);
+    let t0 = if in_pc { 0x4000 } else { stale };
+    let fin = in_pc != has_md; // concrete (the uniqueness test reads this word)
+    let c0 = (words_of(x).1 & 0x8000) | if fin { 0x4000 } else { 0 } | cnt;
+    set_words_of(x, t0, c0);
+    state(|s| sp::set_flags(s, fc, ff, fd));
+    let sn0 = state(|s| sp::snap(s));
+    let n0 = ccp::cb_counts();
+    let r = h.try_unwrap();
+    kani::assert(r.is_err(), "Cc::try_unwrap::post::err_when_shared_or_inside_collection_finalizer_destructor");
+    match r {
+        Err(c) => {
+            kani::assert(raw_of(&c) == x, "Cc::try_unwrap::post::err_returns_the_same_pointer");
+            core::mem::forget(c);
+        }
+        Ok(v) => core::mem::forget(v),
+    }
+    kani::assert(words_of(x) == (t0, c0), "Cc::try_unwrap::err::frame::counts_mark_and_finalized_bit");
+    let (sq, size) = pc_view();
+    kani::assert(sq.wf && size == in_pc as usize && sq.len == size && lp::contains(&sq, x) == in_pc, "Cc::try_unwrap::err::frame::buffer");
+    if let Some(m) = mm {
+        kani::assert(md::wword(m) == ww, "Cc::try_unwrap::err::frame::side_record");
+    }
+    kani::assert(state(|s| sp::snap(s)) == sn0, "Cc::try_unwrap::err::frame::collector_state");
+    kani::assert(ccp::cb_counts() == n0 && ccp::node_of(unsafe { REG[0].unwrap() }).intact(), "Cc::try_unwrap::err::frame::value_and_no_callback");
+    state(|s| sp::set_flags(s, false, false, false));
+    crate::cc::remove_from_list(x);
+}
+//@ C13 C12 | complete | deciding | feat=full,finweak | fn=Cc::try_unwrap | timeout=900
+#[kani::proof]
+#[kani::unwind(9)]
+pub(crate) fn cc_try_unwrap_err_contract() {
+    // shared pointer, collector idle
+    try_unwrap_err_case(2, false, false, false, false, true);
+    try_unwrap_err_case(16382, false, false, false, true, false);
+    // unique pointer, but inside a collection / finalizer / destructor (every flag combination)
+    try_unwrap_err_case(1, true, false, false, false, false);
+    try_unwrap_err_case(1, false, false, true, true, true);
+    try_unwrap_err_case(1, true, false, true, false, true);
+    #[cfg(feature = "finalization")]
+    {
+        try_unwrap_err_case(1, false, true, false, true, false);
+        try_unwrap_err_case(1, true, true, false, false, true);
+        try_unwrap_err_case(1, false, true, true, false, false);
+        try_unwrap_err_case(1, true, true, true, true, true);
+    }
+}
+
+/// finalize_again: panics iff any collector flag is set (object unchanged), otherwise clears only
+/// the finalized bit.
+//@ C12 C05 | complete | deciding | feat=full,fin | fn=Cc::finalize_again,Cc::already_finalized | timeout=600
+#[cfg(feature = "finalization")]
+#[kani::proof]
+#[kani::unwind(9)]
+pub(crate) fn cc_finalize_again_idle_contract() {
+    let mut h = mk_node(0);
+    let x = raw_of(&h);
+    let in_pc: bool = kani::any();
+    if in_pc {
+        crate::cc::add_to_list(x);
+    }
+    let (t0, c0) = havoc_idle(x, in_pc);
+    kani::assert(h.already_finalized() == (c0 & 0x4000 != 0), "Cc::already_finalized::post::reads_flag");
+    h.finalize_again();
+    kani::assert(words_of(x) == (t0, c0 & !0x4000), "Cc::finalize_again::post::clears_only_the_finalized_bit");
+    kani::assert(!h.already_finalized(), "Cc::finalize_again::post::finalizable_again");
+    kani::assert(pc_view().1 == in_pc as usize && ccp::cb_counts() == (0, 0, 0), "Cc::finalize_again::frame::buffer_no_callback");
+    core::mem::forget(h);
+}
+//@ C12 C05 | complete | deciding | feat=full,fin | fn=Cc::finalize_again | panic=Cc::finalize_again cannot be called while collecting | timeout=600
+#[cfg(feature = "finalization")]
+#[kani::proof]
+#[kani::should_panic]
+#[kani::unwind(9)]
+pub(crate) fn cc_finalize_again_panics_inside_collection_finalizer_destructor() {
+    let mut h = mk_node(0);
+    let (fc, ff, fd): (bool, bool, bool) = (kani::any(), kani::any(), kani::any());
+    kani::assume(fc || ff || fd);
+    state(|s| sp::set_flags(s, fc, ff, fd));
+    h.finalize_again();
+    core::mem::forget(h);
+}
+
+// ------------------------------------------------------------------------------------------------
+// Cc::new_cyclic (C14), normal path
+// ------------------------------------------------------------------------------------------------
+#[allow(static_mut_refs)]
+static mut SAVED: Option<Weak<Node>> = None;
+#[allow(static_mut_refs)]
+static mut CYC_OBS: (u32, bool, u32, u8) = (99, false, 99, 0);
+
+/// Inside the closure the Weak is dead (strong_count 0, upgrade None, weak_count 1); afterwards the
+/// returned Cc has strong_count 1, clones saved by the closure upgrade to it; no T is dropped.
+//@ C14 C09 C08 C03 | complete | deciding | feat=full,finweak | fn=Cc::new_cyclic,NewCyclicWrapper::new,CcBox::get_or_init_metadata,Weak::drop | timeout=900
+#[kani::proof]
+#[kani::unwind(9)]
+#[allow(static_mut_refs)]
+pub(crate) fn weak_new_cyclic_contract() {
+    #[cfg(feature = "auto-collect")]
+    let _ = crate::config::config(|c| c.set_auto_collect(false));
+    let b0 = state(|s| sp::snap(s)).bytes;
+    let cc: Cc<Node> = Cc::new_cyclic(|w: &Weak<Node>| {
+        let up = w.upgrade();
+        unsafe {
+            CYC_OBS = (w.strong_count(), up.is_none(), w.weak_count(), flags_now());
+            SAVED = Some(w.clone());
+        }
+        core::mem::forget(up);
+        Node::new(0)
+    });
+    let obs = unsafe { CYC_OBS };
+    kani::assert(obs.0 == 0, "Cc::new_cyclic::post::strong_count_zero_inside_closure");
+    kani::assert(obs.1, "Cc::new_cyclic::post::upgrade_none_inside_closure");
+    kani::assert(obs.2 == 1, "Cc::new_cyclic::post::weak_count_one_inside_closure");
+    kani::assert(obs.3 == 0, "Cc::new_cyclic::post::closure_runs_outside_collector_phases");
+    let x = raw_of(&cc);
+    kani::assert(cc.strong_count() == 1 && count_of(x) == 1, "Cc::new_cyclic::post::strong_count_one_after_return");
+    kani::assert(cc.weak_count() == 1, "Cc::new_cyclic::post::only_saved_clones_remain");
+    kani::assert(ccp::peek_node(&cc).id == 0 && ccp::peek_node(&cc).intact(), "Cc::new_cyclic::post::value_stored");
+    kani::assert(ccp::cb_counts() == (0, 0, 0), "Cc::new_cyclic::post::no_value_dropped_finalized_or_traced");
+    kani::assert(state(|s| sp::snap(s)).bytes == b0 + NODE_BOX, "Cc::new_cyclic::post::allocated_bytes_plus_box_size");
+    kani::assert(cc.inner().layout() == Layout::new::<CcBox<Node>>() && Layout::new::<CcBox<NewCyclicWrapper<Node>>>() == Layout::new::<CcBox<Node>>(), "CcBox::layout::post::equals_creation_layout_through_wrapper");
+    kani::assert(ccp::mark_of(x) == 0 && pc_view().1 == 0, "Cc::new_cyclic::post::not_buffered");
+    let saved = unsafe { SAVED.take().unwrap() };
+    // A-UNION: same bytes, widest union member (see cc_proofs::md::normalise_record_ptr)
+    md::normalise_record_ptr(cc.inner_ptr(), saved.metadata.unwrap());
+    kani::assert(saved.strong_count() == 1, "Weak::strong_count::post::equals_cc_count_while_alive");
+    let up = saved.upgrade();
+    kani::assert(up.is_some(), "Cc::new_cyclic::post::saved_clone_upgrades_after_return");
+    if let Some(u) = &up {
+        kani::assert(Cc::ptr_eq(u, &cc) && cc.strong_count() == 2, "Cc::new_cyclic::post::saved_clone_upgrades_to_returned_allocation");
+    }
+    drop(up);
+    // A-UNION (payload): the value was written through MaybeUninit<T> (a union) and is read back as T;
+    // CBMC does not constant-fold the Option discriminants of the three slots across that re-typing.
+    // They are PROVED None here (solver), then re-stored as the same value through their own type.
+    {
+        let n = ccp::peek_node(&cc);
+        kani::assert(peek_id(&n.s0).is_none() && peek_id(&n.s1).is_none() && peek_id(&n.hidden).is_none(), "Cc::new_cyclic::post::value_stored");
+        unsafe {
+            core::ptr::write(&n.s0 as *const _ as *mut core::cell::RefCell<Option<Cc<Node>>>, core::cell::RefCell::new(None));
+            core::ptr::write(&n.s1 as *const _ as *mut core::cell::RefCell<Option<Cc<Node>>>, core::cell::RefCell::new(None));
+            core::ptr::write(&n.hidden as *const _ as *mut core::cell::RefCell<Option<Cc<Node>>>, core::cell::RefCell::new(None));
+        }
+    }
+    // the object now lives an ordinary life: last owner goes, value dropped once, Weak dead, record freed last
+    let m = saved.metadata.unwrap();
+    drop(cc);
+    kani::assert(g().n_drop == 1 && g().double_drop == 0, "Cc::drop::last_owner::post::dropped_exactly_once");
+    kani::assert(state(|s| sp::snap(s)).bytes == b0, "Cc::drop::last_owner::post::allocated_bytes_minus_box_size");
+    kani::assert(saved.upgrade().is_none() && saved.strong_count() == 0 && saved.weak_count() == 1, "Weak::upgrade::post::none_after_value_gone");
+    kani::assert(md::wword(m) == 1, "drop_metadata::post::record_kept_inaccessible_count_unchanged");
+    drop(saved); // frees the record (CBMC checks double free / layout)
+}
+
+/// new_cyclic while tracing is refused (debug builds).
+//@ C12 C14 | complete | deciding | feat=full,finweak | fn=Cc::new_cyclic | panic=Cannot create a new Cc while tracing!
+#[kani::proof]
+#[kani::should_panic]
+pub(crate) fn weak_new_cyclic_panics_while_tracing() {
+    state(|s| sp::set_flags(s, true, false, false));
+    let cc: Cc<Node> = Cc::new_cyclic(|_w: &Weak<Node>| Node::new(0));
+    core::mem::forget(cc);
+}
